@@ -813,6 +813,41 @@ impl Engine for Sym {
                 emit_checked(&f, &s, emit);
             }
         }
+        // (D) several 30-79 KiB lines (the capacity grows to 160 KiB, how far depends on where the
+        //     lines sit in the window) followed by an UNTERMINATED tail: the end-of-input test must
+        //     not depend on the chunking (F19)
+        let n_d = if thorough { 300 } else { 60 };
+        for _ in 0..n_d {
+            let mut f: Vec<u8> = Vec::new();
+            if rng.chance(1, 2) {
+                f.extend_from_slice(b"MODULE Linux x86_64 D3096ED481217FD4C16B29CD9BC208BA0 firefox-bin\n");
+            }
+            let nl = rng.range(1, 5);
+            for i in 0..nl {
+                let l = rng.range(30_000, 79_900) as usize;
+                if !thorough && f.len() + l > 195_000 {
+                    break;
+                }
+                f.extend_from_slice(format!("PUBLIC {:x} 0 ", 0x1000 + i * 16).as_bytes());
+                f.extend(std::iter::repeat(b'n').take(l));
+                f.push(b'\n');
+                for _ in 0..rng.below(3) {
+                    f.extend_from_slice(format!("FILE {} short.c\n", rng.below(9)).as_bytes());
+                }
+            }
+            match rng.below(6) {
+                0 => {}
+                1 | 4 | 5 => f.extend_from_slice(b"PUBLIC 99 0 tail-without-newline"),
+                2 => f.extend_from_slice(b"FILE 3 t"),
+                _ => f.extend_from_slice(b"garbage tail"),
+            }
+            emit_checked(&f, "whole", emit);
+            for s in ["5000~", "10240~", "1000~", "163840~", "7000~"] {
+                emit_checked(&f, s, emit);
+            }
+            let s = random_sched(rng, f.len());
+            emit_checked(&f, &s, emit);
+        }
         // (C) long lines around the buffer thresholds
         let n_c = if thorough { 500 } else { 70 };
         let cap_total: usize = if thorough { 2_200_000 } else { 200 * 1024 };
